@@ -23,7 +23,7 @@ import e2e
 
 THEOREMS = [
     # the encrypted link as a whole (Model/RemoteSession.v): channel -> sending thread -> socket -> receiving thread -> channel, every interleaving
-    'C14_remote_delivery', 'C14_remote_pipeline', 'C14_remote_complete_partial', 'C14_remote_shutdown_complete', 'C14_remote_final_complete', 'C14_remote_complete_needs_final',
+    'C14_remote_delivery', 'C14_remote_pipeline', 'C14_remote_complete_partial', 'C14_remote_shutdown_complete', 'C14_remote_final_complete', 'C14_remote_complete_needs_final', 'C14_remote_faultfree_shutdown_seen', 'C14_remote_complete_faultfree',
     'C14_codec', 'C14_codec_command', 'C14_codec_response', 'C14_decode_encode_command',
     'C14_decode_encode_response', 'C14_size_command', 'C14_size_response',
     'C14_encode_injective_command', 'C14_encode_injective_response', 'C14_encode_total_command',
